@@ -43,11 +43,18 @@ CLAIMED["C16"] = ("(a) typestate over sexp_gc / sexp_destroy_context: mark*, wea
 
 CLAIMED["C01"] = ("Structural clauses: (b) kind-set dataflow proves every typed access on a C primitive's parameter (or on a value loaded "
     "from a user-controlled container) is dominated by a tag guard admitting only the accessed union member - the VM does not type-check "
-    "foreign-call arguments; (f) every direct C recursion cycle reachable from reader/writer/equal?/eval goes through a verified depth-parameter "
-    "bounder or a listed by-construction bounder; (a) dispatch totality of the VM switch; (d) slot accessor rows designate sexp fields; "
-    "(g) saved context state restored on every path. All-paths decisions of these clauses (necessary conditions of memory safety / error "
-    "containment); index arithmetic, VM operand guards and stack-growth sufficiency are not decided.",
-    "kind-set refinement dataflow over the CFG with boolean condition decomposition (guard dominates access); call-graph SCCs with depth-bound idiom verification; table/layout agreement; save/restore typestate",
+    "foreign-call arguments; (i) index guards: every subscript / pointer addition into the data of a string, bytevector or vector operand whose "
+    "index carries the unboxed value of a program-supplied operand is preceded on every path by comparisons implying 0 <= index < length of that "
+    "same object (VM opcodes and primitives; unguarded helpers become obligations of their call sites); (j) writers of a string's (bytes, offset, "
+    "length) keep the view inside the bytes object; (f) every direct C recursion cycle reachable from reader/writer/equal?/eval goes through a "
+    "verified depth-parameter bounder (guard direction and per-call-edge step checked) or a listed by-construction bounder; (a) dispatch totality "
+    "of the VM switch; (c1) data-dependent VM stack copies dominated by a capacity check; (d) slot accessor rows designate sexp fields; "
+    "(g) saved context state restored on every path; (h) growable reader buffers advance at most their guard's budget. All-paths decisions of these "
+    "clauses (necessary conditions of memory safety / error containment); pointer-walking loops, memcpy lengths, context-owned tables, the reader's "
+    "label table, stack-growth sufficiency and out-of-memory paths are not decided.",
+    "kind-set refinement dataflow over the CFG with boolean condition decomposition (guard dominates access); forward must-dataflow of comparison atoms "
+    "in linear normal form with kill on redefinition / store (index < length of the same object), interprocedural access and non-negativity summaries; "
+    "call-graph SCCs with depth-bound idiom verification; table/layout agreement; save/restore typestate",
     "3 C01")
 
 CLAIMED["C19"] = ("(a) every generated numeric accessor of (scheme bytevector) / (srfi 160 prims) that forms data(B)+off is dominated by "
